@@ -35,17 +35,27 @@ var Q = constants.Q
 type Hexf struct {
 	Kind int
 	Z    *big.Int
+	Raw  *string // the member as it stands in the proof (the Coq model decodes it itself)
 }
 
 func hexfOf(s *string) Hexf {
 	if s == nil {
 		return Hexf{}
 	}
+	cp := *s
 	h, err := merkletree.NewHashFromHex(*s)
 	if err != nil {
-		return Hexf{Kind: 1}
+		return Hexf{Kind: 1, Raw: &cp}
 	}
-	return Hexf{Kind: 2, Z: h.BigInt()}
+	return Hexf{Kind: 2, Z: h.BigInt(), Raw: &cp}
+}
+
+// coqStr renders the raw member for the case file.
+func (h Hexf) coqStr(f *coqgen.File) string {
+	if h.Raw == nil {
+		return "None"
+	}
+	return "(Some " + f.Str(*h.Raw) + ")"
 }
 
 func (h Hexf) orZero() (*big.Int, bool) {
@@ -56,16 +66,6 @@ func (h Hexf) orZero() (*big.Int, bool) {
 		return h.Z, true
 	}
 	return nil, false
-}
-
-func (h Hexf) coq() string {
-	switch h.Kind {
-	case 0:
-		return "XN"
-	case 1:
-		return "XB"
-	}
-	return "(XV " + coqgen.Limbs(h.Z) + ")"
 }
 
 type RProof struct {
@@ -172,8 +172,8 @@ func stateViewOf(s verifiable.State) StateView {
 	return StateView{hexfOf(s.Value), hexfOf(s.ClaimsTreeRoot), hexfOf(s.RevocationTreeRoot), hexfOf(s.RootOfRoots)}
 }
 
-func (s StateView) coq() string {
-	return fmt.Sprintf("mkst_ %s %s %s %s", s.Value.coq(), s.CTR.coq(), s.RTR.coq(), s.ROR.coq())
+func (s StateView) coq(f *coqgen.File) string {
+	return fmt.Sprintf("mkst_ %s %s %s %s", s.Value.coqStr(f), s.CTR.coqStr(f), s.RTR.coqStr(f), s.ROR.coqStr(f))
 }
 
 // View is the decoded typed proof (BJJ: Auth, Sig, AuthMTP, Status; SMT: MTP).
@@ -625,31 +625,17 @@ func (r *Recorder) claimHiHv(c *Claim8) (hi, hv *big.Int) {
 
 // stateOK: Poseidon[ctr, rtr, ror] = value, absent roots = 0.
 func (r *Recorder) stateOK(s StateView) bool {
-	c, ok1 := s.CTR.orZero()
-	t, ok2 := s.RTR.orZero()
-	o, ok3 := s.ROR.orZero()
-	// recorded for the closure check whenever the three numbers exist
-	var h *big.Int
-	{
-		cz, tz, oz := big.NewInt(0), big.NewInt(0), big.NewInt(0)
-		if s.CTR.Kind == 2 {
-			cz = s.CTR.Z
+	// the hash of the three numbers is recorded whenever they exist (closure check), but
+	// counts only if every given root is well-formed hex
+	num := func(h Hexf) *big.Int {
+		if h.Kind == 2 {
+			return h.Z
 		}
-		if s.RTR.Kind == 2 {
-			tz = s.RTR.Z
-		}
-		if s.ROR.Kind == 2 {
-			oz = s.ROR.Z
-		}
-		hh := r.H(cz, tz, oz)
-		if ok1 && ok2 && ok3 {
-			h = hh
-		}
+		return big.NewInt(0)
 	}
-	_ = c
-	_ = t
-	_ = o
-	return s.Value.Kind == 2 && h != nil && h.Cmp(s.Value.Z) == 0
+	h := r.H(num(s.CTR), num(s.RTR), num(s.ROR))
+	wellFormed := s.CTR.Kind != 1 && s.RTR.Kind != 1 && s.ROR.Kind != 1
+	return wellFormed && s.Value.Kind == 2 && h != nil && h.Cmp(s.Value.Z) == 0
 }
 
 // publishedOrGenesis evaluates the DID clause against the resolver script.
@@ -824,8 +810,8 @@ func (s *Shard) envCoq(v *View, env Env) string {
 		a := "None"
 		if av != nil {
 			p := s.def("p", av.MTP.coq())
-			a = "(Some " + s.def("an", fmt.Sprintf("mkans_ %s %s %s %s %s", av.State.Value.coq(), av.State.CTR.coq(),
-				av.State.RTR.coq(), av.State.ROR.coq(), p)) + ")"
+			a = "(Some " + s.def("an", fmt.Sprintf("mkans_ %s %s %s %s %s", av.State.Value.coqStr(s.F), av.State.CTR.coqStr(s.F),
+				av.State.RTR.coqStr(s.F), av.State.ROR.coqStr(s.F), p)) + ")"
 		}
 		rs = append(rs, fmt.Sprintf("(%s, %s)", s.F.Str(e.Type), a))
 	}
@@ -844,7 +830,7 @@ func (s *Shard) Add(id int, t Top, env Env, obs int) {
 		if v.MTP != nil {
 			mtp = optOf(s.def("p", v.MTP.coq()), true)
 		}
-		st := s.def("st", v.State.coq())
+		st := s.def("st", v.State.coq(s.F))
 		did := "None"
 		if v.DID != nil {
 			did = fmt.Sprintf("(Some %d)", s.Rec.DIDNum(v.DIDStr))
